@@ -179,7 +179,9 @@ def interrupts_paragraph(b, o):
     if b.kind == 'html':
         return b.lines[0] == '<div>'             # kinds 1-6 interrupt, comments (kind 2) do too but keep to kind 6
     if b.kind == 'list':
-        return bool(b.items[0]) and (not b.ordered)   # ordered lists only when starting with 1
+        # ordered lists only when starting with 1; an item whose marker line is empty cannot interrupt a paragraph
+        # (a lone '-' under a paragraph line is a setext underline)
+        return bool(b.items[0]) and (not b.ordered) and not (o['item_blank_first'] and b.items[0][0].kind != 'indented')
     return False
 
 
